@@ -7,6 +7,8 @@ CONSTANTS
   Modes = {"miner"}
   Prices = {1}
   KnownRefund = TRUE
+  Versions = {5}
+  AllFull = TRUE
   GenMode = "none"
 CONSTRAINT HighWater
 POSTCONDITION Accepted
